@@ -27,6 +27,7 @@ def sample(Y, m=1, seed=None, unsert=1.E-10):
     """
     m = int(m)
     d = len(Y)
+    Y = [np.asarray(G, dtype=float) for G in Y]
 
     rand = teneva._rand(seed)
 
